@@ -405,6 +405,8 @@ func analyse(sc Scenario, out *outcome, drv *lib.Driver) *caseResult {
 				lines = append(lines, fmt.Sprintf("force-S %d %d %d", e.Num, id.of(&e.Hash), par))
 			}
 			accChain = append(accChain, id.of(&e.Hash))
+			// answers given from now on are "recent" again for the acceptor: repeat them once
+			seenServed = map[string]bool{}
 			nst++
 			notif(nst)
 		case eRestart:
@@ -528,6 +530,31 @@ func analyse(sc Scenario, out *outcome, drv *lib.Driver) *caseResult {
 			}
 		}
 	}
+	// ---- exact replay through Impl.step -----------------------------------------------------
+	if drv != nil && !out.drainLost && len(cr.mismatches) == 0 && out.hang == "" && out.panicMsg == "" {
+		notifOf := func(k int) []string {
+			var o []string
+			for _, e := range out.log {
+				if e.Kind == eReorg && e.Window == k {
+					o = append(o, fmt.Sprintf("G %d %d %d %d", e.Num, id.of(&e.Hash), e.ENum, id.of(&e.EHash)))
+				}
+			}
+			for _, e := range out.log {
+				if e.Kind == eNewHead && e.Window == k {
+					o = append(o, fmt.Sprintf("N %d %d", e.Num, id.of(&e.Hash)))
+				}
+			}
+			return o
+		}
+		diff, n, ih := implReplay(drv, id, sc, out, pre, notifOf)
+		cr.compared += n
+		for k, v := range ih {
+			cr.hits[k] += v
+		}
+		if diff != "" {
+			cr.mismatches = append(cr.mismatches, lib.Mismatch{Sig: "impl-replay-differs", Input: replay(), Model: diff, Impl: "observed on the real synchroniser"})
+		}
+	}
 	cr.key = fmt.Sprintf("%s/%d/%v/%d", sc.Kind, sc.Seed, sc.DstNew, sc.Procs)
 	cr.nontrivial = len(stores) > 0 || nst > 0 || len(curRun) > 0
 	return cr
@@ -562,36 +589,47 @@ func syncGoroutines() string {
 func revertCause(before []entry, x entry) (string, string) {
 	prevCommit := 0
 	for i := len(before) - 1; i >= 0; i-- {
-		if k := before[i].Kind; k == eStored || k == eReverted || k == eJump {
+		if k := before[i].Kind; k == eStored || k == eReverted || k == eJump || k == eRestart {
 			prevCommit = i + 1
 			break
 		}
 	}
+	lie, req := -1, -1
 	for i := len(before) - 1; i >= prevCommit; i-- {
 		e := before[i]
-		if (e.Kind == eServed || e.Kind == eServeErr) && e.Req == x.Num {
-			if e.Kind == eServed && strings.HasPrefix(e.Fault, "corrupt:hash") {
-				return "hash-altered-answer", e.Fault
-			}
-			if e.Kind == eServed && e.Num != e.Req && !strings.HasPrefix(e.Fault, "corrupt:") {
-				return "wrong-number-answer", fmt.Sprintf("block %d", e.Num)
-			}
-			return "", ""
+		if lie < 0 && e.Kind == eLatest && (e.Fault == "fabricated" || e.Fault == "prev-epoch") && e.Num <= x.Num {
+			lie = i
+		}
+		if req < 0 && (e.Kind == eServed || e.Kind == eServeErr) && e.Req == x.Num {
+			req = i
 		}
 	}
-	// no request for this height: what started the task? the fetcher of head+1 is the only caller
-	// of BlockHeaderLatest and is quiet while a revert task runs, so it is the last answer before x
-	for i := len(before) - 1; i >= 0; i-- {
-		e := before[i]
-		if e.Kind == eLatest {
-			if (e.Fault == "fabricated" || e.Fault == "prev-epoch") && e.Num <= x.Num {
-				return "lying-latest-header", fmt.Sprintf("number %d, %s", e.Num, e.Fault)
+	// a lying header earlier in the same run of reverts (x is not the first block it orphaned)
+	if lie < 0 {
+		for i := prevCommit - 1; i >= 0; i-- {
+			e := before[i]
+			if e.Kind == eStored || e.Kind == eRestart {
+				break
 			}
-			break
+			if e.Kind == eLatest && (e.Fault == "fabricated" || e.Fault == "prev-epoch") && e.Num <= x.Num {
+				lie = i
+				break
+			}
 		}
-		if e.Kind == eStored || e.Kind == eRestart {
-			break
+	}
+	if req >= 0 && req > lie {
+		// the task asked for this block: that answer decided
+		e := before[req]
+		if e.Kind == eServed && strings.HasPrefix(e.Fault, "corrupt:hash") {
+			return "hash-altered-answer", e.Fault
 		}
+		if e.Kind == eServed && e.Num != e.Req && !strings.HasPrefix(e.Fault, "corrupt:") {
+			return "wrong-number-answer", fmt.Sprintf("block %d", e.Num)
+		}
+		return "", ""
+	}
+	if lie >= 0 {
+		return "lying-latest-header", fmt.Sprintf("number %d, %s", before[lie].Num, before[lie].Fault)
 	}
 	if staleSuccessor(before, x) {
 		return "stale-successor", ""
@@ -882,7 +920,7 @@ func main() {
 					drv = nil
 				} else {
 					defer drv.Close()
-					// developer aid for self-tests against a repaired tree: C06_MODEL_CFG="1 1 1"
+					// developer aid for self-tests against a repaired tree: C06_MODEL_CFG="1 1 1 1 1"
 					if c := os.Getenv("C06_MODEL_CFG"); c != "" {
 						if a, err := drv.Ask("cfg " + c); err != nil || a != "ok" {
 							res.Note("cfg: %v %v", a, err)
